@@ -13,9 +13,27 @@ for f in sorted(glob.glob(os.path.join(here, "seeded", "*", "meta.json"))):
             caught_by += ["%s: %s" % (k, v.split(":")[0].replace("[violation] ", "")) for v in r["violations"][:2]]
     demo = "clean rc=%s, patched rc=%s" % (m.get("demo_clean_rc"), m.get("demo_patched_rc"))
     rows.append("| %s | %s | %s | %s | %s | %s |" % (m["name"], m["property"], (m.get("needs") or "")[:260].replace("|", "/").replace("\n", " "),
-                                                demo, m.get("repo_tests", "n/a"), (("**caught** — " + "; ".join(caught_by)) if m.get("caught") else ("**MISSED**" if "caught" in m else m.get("error", "?"))) + ((" — NOTE: " + notes[m["name"]]) if m["name"] in notes else "")))
+                                                demo, m.get("repo_tests", "n/a"), (("**caught** — " + "; ".join(caught_by)) if m.get("caught") else ("**MISSED**" if "caught" in m else m.get("error", "?"))) + ((" — NOTE: " + notes[m["name"]]["note"]) if m["name"] in notes else "")))
 with open(os.path.join(here, "seeded", "SUMMARY.md"), "w") as f:
     f.write("# Independently seeded changes and which check catches them\n\n"
             "| name | property | what it needs to manifest (author's notes, truncated) | demonstration | repository tests with the patch | our check |\n|---|---|---|---|---|---|\n")
     f.write("\n".join(rows) + "\n")
+
+def rnd(n): return 2 if "-r2" in n else 1
+stats = {}
+for f in sorted(glob.glob(os.path.join(here, "seeded", "*", "meta.json"))):
+    m = json.load(open(f)); n = m["name"]
+    c = notes.get(n, {}).get("class", "own")
+    stats.setdefault(rnd(n), {}).setdefault(c, []).append(n)
+with open(os.path.join(here, "seeded", "SUMMARY.md"), "a") as f:
+    f.write("\n## Tally (class = how the change was caught the first time it was measured)\n\n")
+    for r in sorted(stats):
+        tot = sum(len(v) for v in stats[r].values())
+        f.write("* round %d (%d changes): " % (r, tot) + "; ".join("%s: %d" % (k, len(v)) for k, v in sorted(stats[r].items())) + "\n")
+    f.write("\n`own` = caught by the unchanged check of its own property at first measurement; `other-check` = not by its own check (a history bug seeded "
+            "under a single-call property, or a front-end covered by another property's check) but by another registered check, unchanged; "
+            "`other-check-after-strengthening` = by another check after a rule was added; `anticipated` = the author's description showed a "
+            "generator gap and the check was widened BEFORE the first measurement (so these say nothing about unassisted detection); "
+            "`missed-then-strengthened` = measured miss (quick and scaled thorough quiet), check extended, then caught.\n")
 print("%d seeded changes, %d caught" % (len(rows), sum("**caught**" in r for r in rows)))
+print({r: {k: len(v) for k, v in s.items()} for r, s in stats.items()})
